@@ -30,6 +30,11 @@ def _db():
     return UnitDatabase.GetSingleton()
 
 
+def pool_types(cfg):
+    """{type: [(unit, name, factor | (a, b) | None=base)]}: the run's own pools or the defaults."""
+    return cfg.get("pool_types") or TYPES
+
+
 # ------------------------------------------------------------------------------------ generator
 
 
@@ -41,9 +46,11 @@ class RegGen:
         self.n = 0
         self.types = cfg["types"]
         self.cats = cfg["cats"]
+        self.T = pool_types(cfg)
+        self.bad_rate = cfg.get("bad_rate", 1.0)
 
     def units_of(self, t):
-        return [u for u, _, _ in TYPES[t]]
+        return [u for u, _, _ in self.T[t]]
 
     def all_units(self):
         return [u for t in self.types for u in self.units_of(t)]
@@ -51,16 +58,17 @@ class RegGen:
     def conv(self, k):
         """(frombase, tobase) for factor k (unit = k base units) or affine (a, b): base = x*a + b."""
         r = self.rng.random()
+        pc = self.cfg.get("callable_prob", 0.3)
         if isinstance(k, tuple):
             a, b = k
-            if r < 0.5:
+            if r >= pc:
                 return "(%%f - %r) / %r" % (b, a), "%%f * %r + %r" % (a, b)
             return {"call": "inv_aff:%r:%r" % (a, b)}, {"call": "aff:%r:%r" % (a, b)}
-        if r < 0.45:
+        if r < pc:
+            return {"call": "div:%r" % k}, {"call": "mul:%r" % k}
+        if r < pc + (1 - pc) * 0.65:
             return "%%f / %r" % k, "%%f * %r" % k
-        if r < 0.7:
-            return "x / %r" % k, "x * %r" % k
-        return {"call": "div:%r" % k}, {"call": "mul:%r" % k}
+        return "x / %r" % k, "x * %r" % k
 
     def __call__(self, sim):
         if self.n >= self.cfg["n_steps"]:
@@ -86,24 +94,26 @@ class RegGen:
     def g_base(self, sim, model):
         rng = self.rng
         t = rng.choice(self.types)
-        cands = TYPES[t]
+        cands = [tuple(x) for x in self.T[t]]
         u, name, _k = cands[0] if rng.random() < 0.6 else rng.choice(cands)
-        if rng.random() < 0.08:
+        if rng.random() < 0.08 * self.bad_rate:
             u = rng.choice(self.all_units())  # possibly a symbol of another type
         return self._op("reg.AddUnitBase", "AddUnitBase", [t, name, u], reg={"kind": "AddUnitBase", "type": t, "unit": u, "name": name})
 
     def g_unit(self, sim, model):
         rng = self.rng
         t = rng.choice(self.types)
-        u, name, k = rng.choice(TYPES[t])
+        u, name, k = rng.choice(self.T[t])
+        if isinstance(k, list):
+            k = tuple(k)
         if k is None:
             k = 1.0
         r = rng.random()
-        if r < 0.1:
+        if r < 0.1 * self.bad_rate:
             u = rng.choice(self.all_units())  # cross-type collision
         fb, tb = self.conv(k)
         bad = None
-        if r > 0.9:
+        if r > 1.0 - 0.1 * self.bad_rate:
             bad = rng.choice(["no_x", "syntax", "unit_none", "unit_int"])
             if bad == "no_x":
                 fb = "100.0"
@@ -134,16 +144,16 @@ class RegGen:
         use_from = rng.random() < 0.25
         t = None
         if use_from:
-            src = rng.choice(self.cats + [NOPE_C]) if rng.random() < 0.85 else NOPE_C
+            src = rng.choice(self.cats + [NOPE_C]) if rng.random() < 1 - 0.15 * self.bad_rate else NOPE_C
             kw["from_category"] = src
-            if rng.random() < 0.1:
+            if rng.random() < 0.1 * self.bad_rate:
                 kw["quantity_type"] = rng.choice(self.types)  # both given: must be rejected
             t = model.cats.get(src, {}).get("type")
         else:
-            t = rng.choice(self.types) if rng.random() < 0.93 else NOPE_T
-            if rng.random() < 0.04:
+            t = rng.choice(self.types) if rng.random() < 1 - 0.07 * self.bad_rate else NOPE_T
+            if rng.random() < 0.04 * self.bad_rate:
                 t = None  # neither quantity_type nor from_category
-        units_t = self.units_of(t) if t in TYPES else ["m", "s"]
+        units_t = self.units_of(t) if t in self.T else ["m", "s"]
         reg_units = [u for u in units_t if u in model.units] or units_t
         if rng.random() < 0.45:
             k = rng.randint(0, min(3, len(reg_units)))
@@ -154,7 +164,7 @@ class RegGen:
                     u = LEGACY_OF[u]
                 if u not in vu:
                     vu.append(u)
-            if rng.random() < 0.15:
+            if rng.random() < 0.15 * self.bad_rate:
                 vu.append(rng.choice([u for u in self.all_units() if u not in units_t] or [NOPE_U]))
             kw["valid_units"] = {"L": vu}
         if rng.random() < 0.4:
@@ -163,7 +173,7 @@ class RegGen:
             u = rng.choice(reg_units)
             if u in LEGACY_OF and rng.random() < 0.4:
                 u = LEGACY_OF[u]
-            if rng.random() < 0.15:
+            if rng.random() < 0.15 * self.bad_rate:
                 u = rng.choice([x for x in self.all_units() if x not in units_t] or [NOPE_U])
             kw["default_unit"] = u
         lo = hi = None
@@ -313,7 +323,8 @@ class RegMonitor(Mon.Monitor):
 
     def focus(self, sim):
         g = self.cfg
-        units = sorted(set(u for t in g["types"] for u, _, _ in TYPES[t]) | {NOPE_U})
+        T = pool_types(g)
+        units = sorted(set(u for t in g["types"] for u, _, _ in T[t]) | {NOPE_U})
         return (list(g["types"]) + [NOPE_T], list(g["cats"]) + [NOPE_C], units)
 
     def snap(self, sim):
